@@ -26,6 +26,8 @@ def run(chk, which="doc", pid_class="C05"):
     members = 0
     bad_rows = []
     for name in TABLE:
+        if name == "items":
+            continue    # alphabet with lexer-error / ignored items: meaningless for grammar membership (used by C01/C02/C04)
         cfg = "MC_Grammar_%s%s.cfg" % (name, suffix)
         cases = os.path.join(work, "cases.ndjson")
         n, r = pg.tlc_cases(chk, "MC_Grammar", cfg, cases, timeout=6000)
